@@ -15,6 +15,7 @@ struct Case {
   int ordered = 1;    // prog 1
   int callers = 1;    // prog 1: 1 or 2 caller threads, each with its own result handler, sharing the pool
   int action = 0;     // prog 3: 0 drain, 1 destroy immediately, 2 partial iteration then destroy; prog 2: compression type
+  int warm = 0;       // prog 2: the pool is first used by another writer at a different explicit compression level (see execute)
   int max_preempt = 1000000;
   int max_spurious = 0;
   std::vector<int> tape;
@@ -24,7 +25,7 @@ struct Case {
   }
   std::string ser() const {
     Out o;
-    o << "property C13\nprogram prog=" << prog << " m=" << m << " n=" << n << " ordered=" << ordered << " callers=" << callers << " action=" << action
+    o << "property C13\nprogram prog=" << prog << " m=" << m << " n=" << n << " ordered=" << ordered << " callers=" << callers << " action=" << action << " warm=" << warm
       << " max_preempt=" << max_preempt << " max_spurious=" << max_spurious << "\n";
     // the schedule: one line per 40 choices so that the shrinker can drop chunks
     for (size_t i = 0; i < tape.size(); i += 40) {
@@ -49,6 +50,7 @@ struct Case {
           else if (k == "ordered") c.ordered = v;
           else if (k == "callers") c.callers = v;
           else if (k == "action") c.action = v;
+          else if (k == "warm") c.warm = v ? 1 : 0;
           else if (k == "max_preempt") c.max_preempt = v;
           else if (k == "max_spurious") c.max_spurious = v;
         }
@@ -136,12 +138,14 @@ static std::string execute(const Case &c, std::vector<vs::Choice> *trace_out, lo
   KVs wkv;
   if (c.prog == 2) {
     wkv = writer_entries(c.n);
-    WConfig wc;
-    wc.comp = c.action % 6;
-    wc.block_size = 1024;
-    int rfd = write_table(wc, wkv);
-    ref_img = fd_contents(rfd);
-    close(rfd);  // one exploration child runs up to 150 000 executions: nothing may leak between them
+    if (!c.warm) {
+      WConfig wc;
+      wc.comp = c.action % 6;
+      wc.block_size = 1024;
+      int rfd = write_table(wc, wkv);
+      ref_img = fd_contents(rfd);
+      close(rfd);  // one exploration child runs up to 150 000 executions: nothing may leak between them
+    }
   }
   vs::begin(c.tape, c.max_preempt, c.max_spurious);
   int bound = 0;
@@ -158,8 +162,34 @@ static std::string execute(const Case &c, std::vector<vs::Choice> *trace_out, lo
     bound = 1 + (c.callers - 1) + c.callers /*handlers*/ + c.m;
   } else if (c.prog == 2) {
     struct mtbl_threadpool *tp = mtbl_threadpool_init((size_t)c.m);
+    if (c.warm) {
+      // The same pool (its worker threads stay alive) first serves a writer at compression level 9; then the caller thread
+      // writes the reference without a pool at level 1; then the measured pooled writer runs at level 1.  "Byte-identical
+      // to the one written without a pool" must not depend on what the pool's threads did before.
+      struct mtbl_writer_options *w0 = mtbl_writer_options_init();
+      mtbl_writer_options_set_compression(w0, (mtbl_compression_type)(c.action % 6));
+      mtbl_writer_options_set_compression_level(w0, 9);
+      mtbl_writer_options_set_block_size(w0, 1024);
+      mtbl_writer_options_set_threadpool(w0, tp);
+      int fd0 = new_memfd("vf-c13-warm");
+      struct mtbl_writer *ww = mtbl_writer_init_fd(fd0, w0);
+      mtbl_writer_options_destroy(&w0);
+      for (auto &kv : wkv)
+        if (mtbl_writer_add(ww, U(kv.first), kv.first.size(), U(kv.second), kv.second.size()) != mtbl_res_success) err = "pooled writer refused an increasing key";
+      mtbl_writer_destroy(&ww);
+      close(fd0);
+      WConfig wc;
+      wc.comp = c.action % 6;
+      wc.block_size = 1024;
+      wc.level_set = true;
+      wc.level = 1;
+      int rfd = write_table(wc, wkv);  // no pool, no pthread call
+      ref_img = fd_contents(rfd);
+      close(rfd);
+    }
     struct mtbl_writer_options *wo = mtbl_writer_options_init();
     mtbl_writer_options_set_compression(wo, (mtbl_compression_type)(c.action % 6));
+    if (c.warm) mtbl_writer_options_set_compression_level(wo, 1);
     mtbl_writer_options_set_block_size(wo, 1024);
     mtbl_writer_options_set_threadpool(wo, tp);
     int fd = new_memfd("vf-c13");
@@ -285,6 +315,7 @@ static Result run_case(const Case &c) {
   if (c.prog == 1 && !c.ordered) r.tag("unordered");
   if (c.prog == 1 && c.n > c.m) r.tag("pool_saturated");
   if (c.max_spurious) r.tag("spurious_wakeups_allowed");
+  if (c.warm && c.prog == 2) r.tag("pool_served_another_compression_level_before");
   r.counters["scheduling_points"] = pts;
   return r;
 }
@@ -297,6 +328,7 @@ static Case gen_case() {
   c.ordered = chance(55);
   c.callers = c.prog == 1 && chance(40) ? 2 : 1;
   c.action = pick(0, 5);
+  c.warm = c.prog == 2 && chance(30);
   c.max_spurious = weighted({55, 25, 20});
   int len = pick(0, 400);
   // mostly "keep running" (0) with bursts of other choices: schedules with few preemptions at random places
